@@ -5,10 +5,16 @@
 typedef struct { unsigned short fnum; unsigned ftype; unsigned short pos, comp, traits; } FT;
 #define VF_TAB static const
 #include "codec_tables.h"
-#ifdef NOGROUP
-#include "world_ng.c"      /* translation with MessageBase::decode_group cut: reaching it is an assertion failure */
-#else
+/* four translations of the same IR: NO_TOKCUT = real byte tokenizer, otherwise extract_element cut (codec_tok.h);
+   NOGROUP = MessageBase::decode_group cut: reaching it is an assertion failure */
+#if defined(NOGROUP) && defined(NO_TOKCUT)
+#include "world_ng.c"
+#elif defined(NOGROUP)
+#include "world_tkng.c"
+#elif defined(NO_TOKCUT)
 #include "world.c"
+#else
+#include "world_tk.c"
 #endif
 #ifndef NEL
 #define NEL 3
@@ -118,9 +124,16 @@ static void W_setup(void)
   vf_tab_hdr(W_hdr_arr, W_hdr_hash, &W_hdr_h); vf_tab_body(W_body_arr, W_body_hash, &W_body_h); vf_tab_trl(W_trl_arr, W_trl_hash, &W_trl_h);
   vf_tab_grp(W_grp_tmpl, W_grp_hash, &W_grp_h);
   for (int e = 0; e < NEL; e++) for (int i = 0; i < VF_N_GRP; i++) W_grp_arr[e][i] = W_grp_tmpl[i];
+#ifdef NOHASH
+  /* experiment / alternative path: no hash array -> presorted_set falls back to std::equal_range over the trait array */
+  vf_mk_header(&W_hdr, &W_ctx, W_hdr_arr, 0);
+  vf_mk_trailer(&W_trl, &W_ctx, W_trl_arr, 0);
+  vf_mk_body(&W_msg, &W_ctx, W_body_arr, 0);
+#else
   vf_mk_header(&W_hdr, &W_ctx, W_hdr_arr, &W_hdr_h);
   vf_mk_trailer(&W_trl, &W_ctx, W_trl_arr, &W_trl_h);
   vf_mk_body(&W_msg, &W_ctx, W_body_arr, &W_body_h);
+#endif
   vf_mk_group(&W_grp, 384);
   for (int e = 0; e < NEL; e++) vf_mk_element(&W_el[e], &W_ctx, W_grp_arr[e], &W_grp_h);
   __CPROVER_assert(!__vf_exc_pending, "world setup raised no exception");
